@@ -152,11 +152,18 @@ class _Hang(BaseException):
     pass
 
 
-def query(m, limit=20):
-    """-> 'True' | 'False' | 'refuses' | 'NO-ANSWER' (the query did not come back within `limit` seconds)"""
+SHARED_ANALYSIS = []
+
+
+def query(m, limit=20, shared=False):
+    """-> 'True' | 'False' | 'refuses' | 'NO-ANSWER' (the query did not come back within `limit` seconds);
+    shared=True asks one long-lived RuntimeAnalysis object that has answered all earlier queries of this run"""
     import signal
-    from bloqade.shuttle.analysis.runtime import RuntimeAnalysis
+    from bloqade.shuttle.analysis.runtime import RuntimeAnalysis as _RA
     from bloqade.shuttle.prelude import move
+    if shared and not SHARED_ANALYSIS:
+        SHARED_ANALYSIS.append(_RA(move))
+    RuntimeAnalysis = (lambda _m: SHARED_ANALYSIS[0]) if shared else _RA
 
     def on_alarm(*a):
         raise _Hang()
@@ -240,6 +247,11 @@ def run(ctx):
                          f"has_quantum_runtime neither answers nor refuses within 20 s (position: {tname}, statement {sname})")
                 cases.append(("([], [])", "skip", rep))
                 continue
+            # the same question put to an analysis object that has already answered other questions (and this one once before)
+            again = [query(m, shared=True), query(m, shared=True)]
+            if any(a != ans for a in again):
+                ctx.fail({"kind": "answer-depends-on-query-history", "position": tname}, rep,
+                         f"a fresh RuntimeAnalysis answers {ans}, a reused one answers {again} (position: {tname}, statement {sname})")
             if acting and ans == "False":
                 ctx.fail({"kind": "false-for-acting-kernel", "position": tname}, rep,
                          f"has_quantum_runtime answers False although the kernel performs {sname} for arguments {acting[0]} (position: {tname})")
